@@ -778,6 +778,11 @@ func (s *State) GetReverseStateDiff(
 			value := felt.Zero
 			if blockNumber > 0 {
 				oldValue, err := s.ContractStorageAt(&addr, &key, blockNumber-1)
+				if errors.Is(err, ErrCheckHeadState) {
+					// No history entry after blockNumber-1: this block did not change the slot
+					// (e.g. it wrote zero to a never-written slot), so the old value is the head value.
+					oldValue, err = s.ContractStorage(&addr, &key)
+				}
 				if err != nil {
 					return core.StateDiff{}, err
 				}
